@@ -206,6 +206,31 @@ Proof.
 Qed.
 Print Assumptions C03_eof_window_no_restore_refuted.
 
+(* ---- the chunk selector's answer "nothing left to read" (getPosForward): ONE count per decision. The code answers with the
+   count it checked the position against (end_answer false = ensure, whatever the journal looks like by then), so the position
+   is still the first unread record in a journal a flush has extended meanwhile *)
+Theorem C03_end_answer_one_count : forall j j2 it, end_answer false j j2 it = ensure j it.
+Proof. exact end_answer_one_count. Qed.
+Print Assumptions C03_end_answer_one_count.
+
+Theorem C03_end_answer : forall j it p c evs,
+  wf_journal j -> wfj j it -> j_ci it = Some p -> find_chunk j (j_cid it) = Some c -> last_chunk j = Some c -> ci_read j it = None ->
+  let j2 := jappend j (j_cid it) evs in
+  let it2 := fst (end_answer false j j2 (advance it)) in
+  jit_pos it2 = jit_pos it /\ flat j2 (jit_pos it2) = fl j it.
+Proof. exact end_answer_kept. Qed.
+Print Assumptions C03_end_answer.
+
+(* reading the count again when the answer is built steps over what was flushed in between *)
+Theorem C03_end_answer_reread_refuted : ~ (forall j it p c evs,
+  wf_journal j -> wfj j it -> j_ci it = Some p -> find_chunk j (j_cid it) = Some c -> last_chunk j = Some c -> ci_read j it = None ->
+  let j2 := jappend j (j_cid it) evs in flat j2 (jit_pos (fst (end_answer true j j2 (advance it)))) = fl j it).
+Proof.
+  intros H. destruct ex6_ok as [A [B [C [D [E F]]]]].
+  specialize (H ex6_journal ex6_it 2%N _ [mkEv 3 [x63] []] A B C D E F). vm_compute in H. discriminate H.
+Qed.
+Print Assumptions C03_end_answer_reread_refuted.
+
 (* the same two flushes under the code: the position is the first unread record *)
 Example C03_ex_eof_window :
   jit_pos (fst (eof_step true true (fold_left (fun a x => jappend a (fst x) (snd x)) [(5%N, [mkEv 3 [x63] []]); (9%N, [mkEv 4 [x64] []])] ex6_journal) ex6_it)) = (5%N, 2%N)
